@@ -35,7 +35,12 @@ class SWorld(object):
         self.z = zoo.Zoo(SHAPES[shape], with_link=False)
         z = self.z
         n = int(np.prod(z.shape))
-        z.o = Data(label='zoo_other', x=np.arange(n, dtype=float).reshape(z.shape) * 3.0 + 1.0)
+        from glue.core.coordinates import AffineCoordinates
+        # the second dataset has coordinates with units but no axis labels, and a fully transparent style
+        z.o = Data(label='zoo_other', x=np.arange(n, dtype=float).reshape(z.shape) * 3.0 + 1.0,
+                   coords=AffineCoordinates(zoo.affine_matrix(z.ndim), units=['deg', 'm', 's'][:z.ndim]))
+        z.o.style.alpha = 0.0
+        z.o.style.markersize = 3
         z.dc = DataCollection([z.d, z.o])
         z.linked = z.o.id['x']
         # a serialisable link (named function) so that d reads o.x
@@ -130,6 +135,9 @@ class SWorld(object):
             rec = {'components': [c.label for c in d.main_components + d.derived_components], 'values': {}, 'linked': {},
                    'style': [d.style.color, d.style.alpha, d.style.markersize], 'meta': json.loads(json.dumps(dict(d.meta), default=str, sort_keys=True)),
                    'coords': type(d.coords).__name__, 'shape': list(d.shape),
+                   'coords_units': [str(u) for u in (getattr(d.coords, 'world_axis_units', None) or [])] if d.coords is not None else None,
+                   'coords_names': [str(u) for u in (getattr(d.coords, 'world_axis_names', None) or [])] if d.coords is not None else None,
+                   'component_units': {c.label: str(getattr(d.get_component(c), 'units', None)) for c in d.world_component_ids},
                    'world': {c.label: enc(d[c]) for c in d.world_component_ids}}
             rec['categorical'] = {}
             for c in d.main_components + d.derived_components:
